@@ -23,7 +23,9 @@ LEVEL = "proof"
 # shipped model hands the same dict object to every sample) and only checked by correspondence.
 STRICT_SHARED = os.environ.get("VERIF_C10_STRICT_SHARED", "0") == "1"
 
-RULE = ("kinds: roundtrip (both shipped sample types, declared size 1..14, 0..13 stored samples crossing 10, "
+RULE = ("kinds: roundtrip (also: numpy-scalar attributes alpha np.float32 / precision np.float64 as get_model_state exports them, Fortran-ordered "
+        "and strided arrays, 100 / 101 stored samples (thorough: 257, 1000) through load_h5, arrays of 64x8 / 700x8 (thorough 100x10 / 3000x10); "
+        "evaluate: every prediction method is called on the samples BEFORE they are saved); roundtrip (both shipped sample types, declared size 1..14, 0..13 stored samples crossing 10, "
         "float64/float32 arrays incl. zero-size, values from specials (denormals, -0.0, max double, non-float32 doubles, "
         "inf, NaN payloads) / random 64-bit patterns, empty / shared / per-sample single-effect tables) through the real "
         "save_h5 + load_h5, compared bit-for-bit; keys (h5py iteration order of the group names, n up to 3 digits); "
@@ -111,6 +113,8 @@ THEOREMS.update({
     "C10_sc_from_dicts_only_of_private": "conversely, a dict that from_dicts accepts is (as a finite map) the private dict of the sample it returns",
     "C10_source_save_primitives_are_translations": "consistency with C10_model_is_source_save_h5: with P = S = parameter dict and a sample represented as (private dict, shared dict), the meanings fst / snd that the save_h5 configuration gave to t.private_parameters_dict() / t.shared_parameters_dict() are what the translated methods of t's class compute, for every shipped sample",
     "C10_source_load_primitive_is_translation": "consistency with C10_model_is_source_load_h5: the pair (p, s) that the load_h5 configuration gave to C.from_dicts(private_params=p, shared_params=s) stands for the sample - the translated from_dicts of the sample's class returns t from t's own pair (tables with distinct keys)",
+    "C10_source_cli_evaluate_is_thetas_evaluate": "the two models of evaluate_model.main are one: the TRANSLATED main() with the Thetas model as its library (load = any function of the path, concat_holders, declared size, one prediction column per get_theta(k), ModelEvaluation's length check) is Thetas.evaluate on the holders loaded in argument order - so C10_evaluate_labels / _partial_refused are theorems about the translated main()",
+    "C10_source_cli_evaluate_complete": "... and for complete non-empty chains whose files are what save_h5 wrote, read by load_h5, the translated main() writes exactly one evaluation whose columns are chain-major (all of the first --thetas file in step order, then the second, ...) each labelled with the position of its file on the command line",
     "C10_source_samples_persist": "end to end through translated code only: a non-empty collection of shipped samples within its declared size, sharing their shared parameters, goes through the translated save_h5, the file, the translated load_h5 and the translated from_dicts and comes back as the same declared size and the same samples in the same order",
     "C10_model_is_source_theta_equals": "the translation of the whole method Theta.equals (class test, the two pairs of dicts, both loops with their early returns, `k not in d2`, the Number / ArrayType / other branches) equals the model's theta_equals for ANY sample class given by its class test and dict methods and any comparison functions",
     "C10_source_equals_is_sample_eqb": "on any two shipped samples, with dispatch to the translated dict methods, the translated equals returns (never raises) the model equality: field by field, the tables row by row in iteration order, false across classes",
@@ -213,18 +217,40 @@ def _arr(r, shape, mode, dtype):
     return a
 
 
-def make_sample(r, typ, dims, mode, dtype, table):
+def _layout(a, layout):
+    """the same values in another memory layout: Fortran order, or a strided (non-contiguous) view of a wider buffer"""
+    if layout == "F" and a.ndim == 2:
+        return np.asfortranarray(a)
+    if layout == "strided":
+        wide = np.zeros(a.shape[:-1] + (2 * a.shape[-1],), dtype=a.dtype) if a.ndim else None
+        if wide is not None:
+            wide[..., ::2] = a
+            wide[..., 1::2] = 77.0
+            return wide[..., ::2]
+    return a
+
+
+def _scalar(x, scalars):
+    """real exported samples carry numpy scalars (get_model_state: alpha np.float32, precision np.float64)"""
+    with np.errstate(all="ignore"):
+        return {"f4": np.float32, "f8": np.float64}.get(scalars, float)(x)
+
+
+def make_sample(r, typ, dims, mode, dtype, table, scalars="py", layout="C"):
     from batchie.models.sparse_combo import SparseDrugComboMCMCSample
     from batchie.models.sparse_combo_interaction import SparseDrugComboInteractionMCMCSample
     ns, nt, D = dims
+
+    def arr(shape):
+        return _layout(_arr(r, shape, mode, dtype), layout)
     if typ == "inter":
         return SparseDrugComboInteractionMCMCSample(
-            W=_arr(r, (ns, D), mode, dtype), V2=_arr(r, (nt, D), mode, dtype),
-            precision=_value(r, mode), single_effect_lookup=table)
+            W=arr((ns, D)), V2=arr((nt, D)),
+            precision=_scalar(_value(r, mode), scalars if scalars != "f4" else "f8"), single_effect_lookup=table)
     return SparseDrugComboMCMCSample(
-        W=_arr(r, (ns, D), mode, dtype), W0=_arr(r, (ns,), mode, dtype), V2=_arr(r, (nt, D), mode, dtype),
-        V1=_arr(r, (nt, D), mode, dtype), V0=_arr(r, (nt,), mode, dtype),
-        alpha=_value(r, mode), precision=_value(r, mode))
+        W=arr((ns, D)), W0=arr((ns,)), V2=arr((nt, D)),
+        V1=arr((nt, D)), V0=arr((nt,)),
+        alpha=_scalar(_value(r, mode), scalars), precision=_scalar(_value(r, mode), scalars if scalars != "f4" else "f8"))
 
 
 def make_table(r, size, mode):
@@ -260,7 +286,7 @@ def build_roundtrip_samples(desc):
                 tb[(9, 9)] = 0.25
         else:
             tb = shared_table
-        out.append(make_sample(r, typ, dims, mode, dtype, tb))
+        out.append(make_sample(r, typ, dims, mode, dtype, tb, desc.get("scalars", "py"), desc.get("layout", "C")))
     return out
 
 
@@ -290,6 +316,23 @@ def gen(rng, tier):
             d["table"] = rng.choice(["empty", "shared", "shared", "mixed"])
             d["tsize"] = 0 if d["table"] == "empty" else rng.randint(0 if d["table"] == "mixed" else 1, 6)
         yield d
+    # what real samples look like: numpy-scalar attributes (alpha np.float32, precision np.float64 as get_model_state exports them),
+    # Fortran-ordered / strided arrays, realistic sizes (gzip chunking), three-digit sample counts through load_h5
+    for _ in range(60 if not big else 500):
+        typ = rng.choice(["combo", "combo", "inter"])
+        n = rng.choice([1, 2, 3, 10, 11, 12])
+        d = dict(kind="roundtrip", type=typ, declared=n, n=n,
+                 dims=[rng.choice([1, 2, 3]), rng.choice([1, 2, 4]), rng.choice([1, 2, 3])],
+                 mode=rng.choice(["special", "bits", "mixed", "moderate"]), dtype=rng.choice(["f8", "f4"]),
+                 scalars=rng.choice(["f4", "f4", "f8", "py"]), layout=rng.choice(["C", "F", "F", "strided", "strided"]),
+                 vseed=rng.getrandbits(32))
+        if typ == "inter":
+            d["table"] = "shared"
+            d["tsize"] = rng.randint(1, 6)
+        yield d
+    for n, dims in ([(100, [1, 1, 1]), (101, [1, 1, 1]), (3, [64, 700, 8])] + ([(1000, [1, 1, 1]), (257, [2, 3, 2]), (5, [100, 3000, 10])] if big else [])):
+        yield dict(kind="roundtrip", type="combo", declared=n, n=n, dims=dims, mode="moderate", dtype="f4" if n == 3 else "f8",
+                   scalars="f4", layout="C", vseed=rng.getrandbits(32))
     # malformed / refusal stream for persistence
     for _ in range(12 if not big else 60):
         yield dict(kind="roundtrip", type=rng.choice(["combo", "inter"]), declared=rng.choice([0, 1, 5, -1]), n=0,
@@ -436,6 +479,14 @@ def _run_roundtrip(desc):
             if pred is None and second.get("v") != out:
                 pred = "save/load of the reloaded holder is not a fixed point"
     feats = ["roundtrip", desc["type"], "values-" + desc["mode"], desc["dtype"]]
+    if desc.get("scalars", "py") != "py":
+        feats.append("numpy-scalars:" + desc["scalars"])
+    if desc.get("layout", "C") != "C":
+        feats.append("layout:" + desc["layout"])
+    if n >= 100:
+        feats.append("n>=100(three-digit groups loaded)")
+    if int(np.prod(desc["dims"])) >= 10000:
+        feats.append("realistic-size")
     if n == 0:
         feats.append("save-empty")
     if overfull:
@@ -572,6 +623,12 @@ def _run_evaluate(desc):
         hs.append(h)
     with np.errstate(all="ignore"):
         ref = [np.asarray(t.predict_viability(screen), dtype=float) for t in samples]
+        # every prediction method is used BEFORE the samples are saved (the order of the real pipeline: scoring / evaluation use
+        # the samples that are later written): a prediction that leaves anything behind on the sample (its private parameters are
+        # its __dict__) would change the file or break the reload below
+        for t in samples:
+            t.predict_conditional_mean(screen)
+            t.predict_conditional_variance(screen)
     refbits = [tuple(_bits_list(p)) for p in ref]
     if len(set(refbits)) != len(refbits):
         raise RuntimeError("harness: two generated samples predict identically; cannot recognise columns")
